@@ -22,9 +22,9 @@ EXPLANATION = (
     'line outside the protocol, and SOME reaction (a line written or a failure) to every line - the no-stall clause. '
     'run: k server lines from connectionMade through the real dataReceived. full: complete handshakes against a '
     'reference server for every subset of accepted mechanisms and both answers to NEGOTIATE_UNIX_FD.')
-BOUNDS = {'quick': 'step: 3 mechanisms x unix/non-unix x negotiation pending or not x 17 line shapes (all); run: k <= 3 lines from 9 shapes; '
+BOUNDS = {'quick': 'step: 3 mechanisms x unix/non-unix x negotiation pending or not x 17 line shapes (all); run: k <= 4 lines from 9 shapes; '
                    'full: 7 subsets x 2 transports x 2 answers',
-          'thorough': 'run: k <= 4'}
+          'thorough': 'run: k <= 5'}
 ASSUMPTIONS = ['cookie lookup reads a keyring directory created by the harness under a temporary HOME (full) or is stubbed (step, run)',
                'os.urandom / SHA-1 are the real ones in full (the reference server recomputes the hash) and irrelevant in step/run',
                'getpass.getuser is stubbed to a fixed name']
@@ -52,7 +52,7 @@ def obligations(tier):
                               'step', {'mi': mi, 'unix': unix, 'pending': pending}, timeout=120, path_timeout=20, twin=True,
                               functions=FUNCS[:9], bounds='server line: symbolic choice among %d shapes; cookie lookup '
                               'outcome symbolic' % len(LINES)))
-    kmax = 3 if tier == 'quick' else 4
+    kmax = 4 if tier == 'quick' else 5
     for k in range(1, kmax + 1):
         for unix in (False, True):
             for split in (0, 1):
